@@ -452,6 +452,7 @@ func checkC20(c *Ctx, r *Report) {
 	r.rule("C20.LOCK", "every access to Root.subscriptions and every Subscriber callback holds Root.subLock on the same Root")
 	r.rule("C20.PAIR", "subLock released on all paths")
 	r.rule("C20.ORDER", "no re-acquisition; lock-order graph acyclic")
+	r.rule("C20.ONCE", "every Subscriber.Unsubscribe callback is made for a subscription that is a registry element read under the held lock, or identical to one")
 	r.rule("C20.TWOPHASE", "clean-up re-reads the registry inside its own critical section and removes by identity")
 	s, ok := subAnchors(c, r, "C20.LOCK")
 	if !ok {
@@ -510,6 +511,69 @@ func checkC20(c *Ctx, r *Report) {
 		sub[fn] = eng.sums[fn]
 	}
 	lockRulesFiltered(c, r, eng, "C20", sub, "Root.subLock")
+	// ONCE: a clean-up callback is made only for a subscription found in the registry inside the current
+	// critical section: the receiver's subscription is a registry element loaded under the lock, or is
+	// compared for identity with one. A list remembered from an earlier critical section is stale: another
+	// publisher or Unsubscribe may have removed (and cleaned up) the same subscription in the gap.
+	nOnce := 0
+	for _, fn := range []*ssa.Function{s.unsub, s.addEvent} {
+		st := eng.local(fn)
+		heldLoad := func(v ssa.Value) bool {
+			in, ok := v.(ssa.Instruction)
+			if !ok {
+				return false
+			}
+			for _, lr := range st.heldAt[in] {
+				if lr.class == "Root.subLock" {
+					return true
+				}
+			}
+			return false
+		}
+		regElem := func(v ssa.Value) bool {
+			switch t := v.(type) {
+			case *ssa.UnOp:
+				if ia, ok := t.X.(*ssa.IndexAddr); ok && t.Op == token.MUL && isSubsLoad(ia.X) {
+					return heldLoad(t)
+				}
+			case *ssa.Extract:
+				if nx, ok := t.Tuple.(*ssa.Next); ok && t.Index == 2 {
+					if rg, ok := nx.Iter.(*ssa.Range); ok && isSubsLoad(rg.X) {
+						return heldLoad(nx)
+					}
+				}
+			}
+			return false
+		}
+		k := 0
+		for _, ci := range callsIn(fn) {
+			cc := ci.Common()
+			if !cc.IsInvoke() || cc.Method.Name() != "Unsubscribe" || !c.isNamed(cc.Value.Type(), "Subscriber") {
+				continue
+			}
+			nOnce++
+			k++
+			found := false
+			if base, o, f, ok := loadOfField(cc.Value); ok && o == "Subscription" && f == "sub" {
+				if regElem(base) {
+					found = true
+				}
+				for _, g := range blockGuards(ci.Block()) {
+					g = normGuard(g)
+					bo, ok := g.cond.(*ssa.BinOp)
+					if !ok || bo.Op != token.EQL || !g.val {
+						continue
+					}
+					if (sameVal(bo.X, base) && regElem(bo.Y)) || (sameVal(bo.Y, base) && regElem(bo.X)) {
+						found = true
+					}
+				}
+			}
+			r.check("C20.ONCE", fmt.Sprintf("%s: clean-up callback #%d only for a subscription found in the registry under the lock", fnName(fn), k), ci.Pos(), found,
+				"the callback's subscription is neither a registry element read in this critical section nor compared for identity with one: when another publisher or an Unsubscribe call removed it between the two critical sections its clean-up runs a second time")
+		}
+	}
+	r.floor("C20.ONCE", "clean-up callback sites", nOnce, 2)
 	// TWOPHASE: the removal in AddEvent happens in a critical section that also contains the re-read used for identity
 	for i, rm := range findRemovals(s.addEvent) {
 		st := eng.local(s.addEvent)
